@@ -16,7 +16,7 @@ TECHNIQUE = "bounded exhaustive enumeration of macro use forms x combinations x 
 RULE = ("use forms U (each paired with its manual inlining): string macro as list item, as operand, inside a name (prefix, "
         "suffix), as key with a times body, as $deref field value; list macro (5 instruction-level bodies) as list item, as "
         "'@m:' key, inside $or/$not/$and_any_order; operand-level list macro; parameterised macro with 1 and 2 formals "
-        "called with leaf and with sub-tree arguments, with equal and with different arguments; a macro whose body uses "
+        "called with leaf, sub-tree and falsy (YAML int 0) arguments, with equal and with different arguments; a macro whose body uses "
         "another macro (user listed first); a macro used inside a macro argument. Rules: EVERY sequence of length 1..K over "
         "U and 2 plain items (K=2 quick, 3 thorough on a reduced U), so one macro is used 1..K times. For each rule: EVERY "
         "admissible order of the definition list and EVERY split of the definitions between the rule file and 1..2 extra "
@@ -31,7 +31,7 @@ LEVEL_TEXT = ("All rules of the stated use-form grammar x all admissible orders 
 LEVEL_NOTE = "Trusted: the (use form, inlined form) pairs written in this module; no reference expander is needed."
 
 ALPHA = [("mov", ["%rax", "%rbx"]), ("movl", ["%rbx", "%rax"]), ("push", ["%rax"]), ("ret", []), ("xor", ["%rax", "%rax"]),
-         ("mov", ["(%rax)", "%rcx"])]
+         ("mov", ["(%rax)", "%rcx"]), ("mov", ["%rax", "$0x0"]), ("mov", ["$0x0", "%rbx"]), ("mov", ["$0x0", "%rax"])]
 
 M_S = {"name": "@s", "pattern": "mov"}
 M_R = {"name": "@r", "pattern": "rax"}
@@ -75,6 +75,9 @@ def uses(tier):
         ({"@p2": None, "a1": "rbx", "a2": "rax"}, {"mov": ["rbx", "rax"]}, [M_P2], []),
         ({"@p2": None, "a2": "rbx", "a1": "rax"}, {"mov": ["rax", "rbx"]}, [M_P2], []),
         ({"@p2": None, "a1": "rax", "a2": "rax"}, {"mov": ["rax", "rax"]}, [M_P2], []),
+        ({"@p2": None, "a1": "rax", "a2": 0}, {"mov": ["rax", 0]}, [M_P2], []),          # falsy argument values
+        ({"@p2": None, "a1": 0, "a2": "rax"}, {"mov": [0, "rax"]}, [M_P2], []),
+        ({"@p1": None, "a1": 0}, p1(0), [M_P1], []),
         ({"@p3": None, "i1": "mov", "i2": "push"}, {"$and": ["mov", "push"]}, [M_P3], []),
         ({"@p3": None, "i1": {"push": ["rax"]}, "i2": "ret"}, {"$and": [{"push": ["rax"]}, "ret"]}, [M_P3], []),
         ("@n", {"$or": ["mov", "push"]}, [M_N, M_S], [("@n", "@s")]),
